@@ -265,7 +265,15 @@ func runRoundScenario(seed uint64, size int, t *Trace) error {
 				em.Signature = glow.Sign(em.SigningBytes(), out)
 				mig = &em
 			case 3: // entry signed by a key that is not the GCA
+				// ... either a new server or a "ban" of a server the client knows (a ban nobody authorised)
 				as := server.AuthorizedServer{PublicKey: detKey(seed, 950).Pub, Location: "evil", HttpPort: 1, TcpPort: 2, UdpPort: 3}
+				if r.Chance(60) {
+					j := r.Intn(len(fs))
+					cs := st.Servers[fs[j].key.Pub]
+					as = server.AuthorizedServer{PublicKey: fs[j].key.Pub, Banned: true, Location: "127.0.0.1", HttpPort: 4, TcpPort: cs.TcpPort, UdpPort: cs.UdpPort}
+				} else if r.Chance(50) {
+					as.Banned = true
+				}
 				as.GCAAuthorization = glow.Sign(as.SigningBytes(), fs[i].key.Priv)
 				list = append(list, as)
 			}
